@@ -41,6 +41,23 @@ pub fn expect_reject(
     }
 }
 
+/// A false value for a claim whose true value is `truth`: the truth shifted by 1, -1 or a random
+/// element, zero, the negated or doubled truth, or one of the `pool` values (values that are true for
+/// *other* claims of the same transcript - another polynomial at this point, this polynomial at another
+/// point - or that differ from the truth by a quantity of the statement such as an LC constant).
+pub fn false_value<F: Field + UniformRand>(truth: F, pool: &[F], seed: u64) -> (F, &'static str) {
+    let cands: Vec<F> = pool.iter().cloned().filter(|x| *x != truth).collect();
+    let k = seed % 8;
+    let alt = match k {
+        3 if !truth.is_zero() => Some((F::zero(), "value := 0")),
+        4 if !truth.is_zero() && -truth != truth => Some((-truth, "value := -value")),
+        5 | 6 if !cands.is_empty() => Some((cands[((seed >> 8) % cands.len() as u64) as usize], "value := a value true elsewhere in the statement")),
+        7 if !truth.is_zero() && truth.double() != truth => Some((truth.double(), "value := 2*value")),
+        _ => None,
+    };
+    alt.unwrap_or_else(|| (truth + delta::<F>(seed >> 3), "value += delta"))
+}
+
 /// non-zero delta from a seed: 1, -1 or random
 pub fn delta<F: Field + UniformRand>(seed: u64) -> F {
     match seed % 3 {
@@ -135,7 +152,12 @@ pub fn check_trait<S: Scheme>(scn: &Scn, ctx: &mut CaseCtx) -> Result<(), Failur
     // value
     {
         let mut v = values.clone();
-        v[pos] += delta::<S::F>(sel >> 16);
+        // pool: the other polynomials' values at this point, this polynomial's values at the other points
+        let mut pool: Vec<S::F> = values.clone();
+        pool.extend(sess.point_vals.iter().map(|z| sess.true_value(order[pos], z)));
+        let (fv, how) = false_value::<S::F>(values[pos], &pool, sel >> 16);
+        ctx.label(how);
+        v[pos] = fv;
         let r = sess.check_idx(&order, &g.point, v, &proof, &mut sess.sponge(), sel);
         expect_reject(ctx, P, S::NAME, "check", "value", &r, || {
             format!("value at position {pos} of {} changed", order.len())
@@ -210,7 +232,11 @@ pub fn check_trait<S: Scheme>(scn: &Scn, ctx: &mut CaseCtx) -> Result<(), Failur
     // value at (poly, point of group gi)
     {
         let mut e = evals.clone();
-        *e.get_mut(&(plabel.clone(), g.point.clone())).unwrap() += delta::<S::F>(sel >> 44);
+        let pool: Vec<S::F> = evals.values().cloned().collect();
+        let slot = e.get_mut(&(plabel.clone(), g.point.clone())).unwrap();
+        let (fv, how) = false_value::<S::F>(*slot, &pool, sel >> 44);
+        ctx.label(how);
+        *slot = fv;
         let r = sess.batch_check(sess.verifier_comms(), &qs, &e, &bp, &mut sess.sponge(), sel);
         expect_reject(ctx, P, S::NAME, "batch_check", "value", &r, || {
             format!("value of {plabel} at point label {} changed", g.label)
@@ -558,12 +584,32 @@ pub fn spec() -> PropertySpec {
         budget,
         [Marlin, Sonic, Ipa, Pst13, Hyrax, ULigero, MLigero, Brakedown]
     );
+    macro_rules! comb {
+        ($s:ty, $q:expr, $t:expr) => {
+            units.push(PropUnit::new(
+                format!("C02:{}:false-combination-values", <$s as Scheme>::NAME),
+                $q,
+                $t,
+                4,
+                |_| super::c06::case().boxed(),
+                |c: &super::c06::Case, ctx: &mut CaseCtx| super::c06::check_false_claims::<$s>(c, ctx, P),
+            ));
+        };
+    }
+    comb!(Marlin, 120, 1200);
+    comb!(Sonic, 120, 1200);
+    comb!(Ipa, 80, 800);
+    comb!(Pst13, 80, 800);
+    comb!(Hyrax, 60, 600);
+    comb!(ULigero, 40, 400);
+    comb!(MLigero, 40, 400);
+    comb!(Brakedown, 30, 300);
     units.push(PropUnit::new("C02:kzg10:perturbed-statement", 200, 2000, 2, |_| kzg_case().boxed(), check_kzg));
     units.push(PropUnit::new("C02:mlpst:perturbed-statement", 200, 2000, 2, |_| ml_case().boxed(), check_ml));
     units.push(PropUnit::new("C02:skzg:perturbed-statement", 200, 2000, 2, |_| sk_case().boxed(), check_sk));
     PropertySpec {
         id: "C02",
-        rule: "Accepted honest transcripts (C01 scenarios) are perturbed at a scenario-chosen position: claimed value + delta (delta in {1,-1,random}), point replaced by z' constructed so that the perturbed statement is false (some p_j(z') != v_j; constant-only groups are skipped and counted), commitment replaced by an honest commitment to q != p with q(z) != p(z); each in single check and in batch_check (KZG10 check/batch_check, multilinear PST check, streaming verify/verify_multi_points likewise). Oracle: verifier outcome is Ok(false), Err or abort. For the code-based schemes a moved point is asserted only when the probability that the honest columns pass by chance is <= 2^-40 (computed from the harness's own encoded matrix); other cases are labelled toy_soundness_not_asserted. Non-trivial: perturbed position shares its batch with other claims (>=2 polynomials at the label, >=2 labels, position > 0) or the scenario carries a degree bound / hiding.",
+        rule: "Accepted honest transcripts (C01 scenarios) are perturbed at a scenario-chosen position: a false claimed value (the truth +1 / -1 / + random, 0, the negated or doubled truth, or a value that is true for another claim of the same transcript: another polynomial at this point, this polynomial at another point), point replaced by z' constructed so that the perturbed statement is false (some p_j(z') != v_j; constant-only groups are skipped and counted), commitment replaced by an honest commitment to q != p with q(z) != p(z); each in single check and in batch_check (KZG10 check/batch_check, multilinear PST check, streaming verify/verify_multi_points likewise). Combination openings (all eight trait schemes): with honest commitments and the honest open_combinations proof, every queried (combination, point) is given each of up to ~12 structured false values (as above, plus the truth with the combination's constant part removed / added again / removed twice, and the values claimed elsewhere in the statement) - check_combinations must accept none, whether or not it accepts the honest transcript. Oracle: verifier outcome is Ok(false), Err or abort. For the code-based schemes a moved point is asserted only when the probability that the honest columns pass by chance is <= 2^-40 (computed from the harness's own encoded matrix); other cases are labelled toy_soundness_not_asserted. Non-trivial: perturbed position shares its batch with other claims (>=2 polynomials at the label, >=2 labels, position > 0) or the scenario carries a degree bound / hiding.",
         assumptions: vec![
             "perturbed statements are false by construction (checked with ark-poly evaluate)",
             "rejection of algebraic perturbations fails with probability <= 2^-120 per case",
